@@ -5,8 +5,10 @@ import (
 	"io"
 	"sort"
 	"strings"
+	"unsafe"
 
 	"github.com/corazawaf/coraza/v3/types"
+	"github.com/corazawaf/coraza/v3/verifrt"
 )
 
 // Outcome is the normalised observable result of one transaction (§2.4).
@@ -27,7 +29,10 @@ type Outcome struct {
 	HeldReader  string           `json:"held_reader,omitempty"`
 	ErrSteps    []string         `json:"err_steps,omitempty"` // steps that returned a non-nil error
 	DebugErrors int              `json:"debug_errors"`
+	Excl        string           `json:"exclusivity,omitempty"`
 }
+
+func ifacePtr(x any) unsafe.Pointer { return (*[2]unsafe.Pointer)(unsafe.Pointer(&x))[1] }
 
 type step struct {
 	name string
@@ -37,12 +42,21 @@ type step struct {
 // runTx executes script s on h.  Every API call runs under recover.
 func runTx(h *wafHandle, s *TxScript) *Outcome {
 	out := &Outcome{Data: map[int][]string{}, Msgs: map[int]string{}, TX: map[string]string{}}
-	cbBefore := len(h.ErrCB)
-	dbgBefore := h.DebugBuf.Len()
+	cbBefore, dbgBefore := 0, 0
+	if !h.Concurrent {
+		cbBefore = len(h.ErrCB)
+		dbgBefore = h.DebugBuf.Len()
+	}
 	var tx types.Transaction
 	if p := safely(func() { tx = h.WAF.NewTransactionWithID(s.ID) }); p != "" {
 		out.Panic, out.PanicStep = p, "NewTransaction"
 		return out
+	}
+	if h.Concurrent {
+		// pool exclusivity: the object must not be live in another task
+		if !verifrt.LiveAdd(ifacePtr(tx)) {
+			out.Excl = fmt.Sprintf("NewTransaction for %s returned an object that is still in use by another live transaction", s.ID)
+		}
 	}
 	itS := func(it *types.Interruption) string { return itOf(it).String() }
 	errS := func(err error) string {
@@ -153,6 +167,9 @@ func runTx(h *wafHandle, s *TxScript) *Outcome {
 			out.Panic, out.PanicStep = p, "observe"
 		}
 	}
+	if h.Concurrent {
+		verifrt.LiveRemove(ifacePtr(tx))
+	}
 	if !s.NoClose {
 		if p := safely(func() {
 			if err := tx.Close(); err != nil {
@@ -168,6 +185,9 @@ func runTx(h *wafHandle, s *TxScript) *Outcome {
 	if held != nil {
 		b, err := io.ReadAll(held)
 		out.HeldReader = fmt.Sprintf("%q err=%v", b, err != nil)
+	}
+	if h.Concurrent {
+		return out
 	}
 	for _, c := range h.ErrCB[cbBefore:] {
 		out.ErrCB = append(out.ErrCB, c.RuleID)
